@@ -25,6 +25,9 @@ type Script struct {
 	// Close is called (the peer stays connected but silent).
 	Hold     chan struct{}
 	holdOnce sync.Once
+	// OnWriteDeadline, when non-nil, is called by SetWriteDeadline (i.e. inside a WriteFcall, after its
+	// entry check of the context).
+	OnWriteDeadline func()
 }
 
 // NewHeld is NewScript for a peer that stays connected after its script.
@@ -74,11 +77,16 @@ func (s *Script) Close() error {
 	}
 	return nil
 }
-func (s *Script) LocalAddr() net.Addr                { return addr{} }
-func (s *Script) RemoteAddr() net.Addr               { return addr{} }
-func (s *Script) SetDeadline(t time.Time) error      { return nil }
-func (s *Script) SetReadDeadline(t time.Time) error  { return nil }
-func (s *Script) SetWriteDeadline(t time.Time) error { return nil }
+func (s *Script) LocalAddr() net.Addr               { return addr{} }
+func (s *Script) RemoteAddr() net.Addr              { return addr{} }
+func (s *Script) SetDeadline(t time.Time) error     { return nil }
+func (s *Script) SetReadDeadline(t time.Time) error { return nil }
+func (s *Script) SetWriteDeadline(t time.Time) error {
+	if s.OnWriteDeadline != nil {
+		s.OnWriteDeadline()
+	}
+	return nil
+}
 
 // Chunk splits stream according to mode: 0 = one chunk, 1 = single bytes,
 // 2 = at the given boundaries, 3 = random sizes from next().
